@@ -117,8 +117,8 @@ RETS = {
     "int_drop": R("Result<instr::Dc, ()>", "if sel % 2 == 0 { Ok(instr::Dc::new(k)) } else { Err(()) }", rdig="r.map(|d| d.val).dig()", attr="#[int_result]"),
     # zero-sized success payload with a destructor: moved into the caller's slot once, like any other payload
     "int_zst_drop": R("Result<instr::DcZst, ()>", "if sel % 2 == 0 { Ok(instr::DcZst::new()) } else { Err(()) }", rdig="r.map(|_| 1u64).dig()", attr="#[int_result]"),
-    "int_io": R("Result<u64, ::std::io::Error>", "match sel % 3 { 0 => Ok(k), 1 => Err(::std::io::Error::from_raw_os_error(((k % 4000) as i32) + 1)), _ => Err(::std::io::Error::new(::std::io::ErrorKind::Other, \"x\")) }",
-                rdig="r.map_err(|e| if cur_sel() % 3 == 2 { 0u32 } else { e.raw_os_error().unwrap_or(-1) as u32 }).dig()", attr="#[int_result]"),
+    "int_io": R("Result<u64, ::std::io::Error>", "match sel % 4 { 0 => Ok(k), 1 => Err(::std::io::Error::from_raw_os_error(((k % 4000) as i32) + 1)), 2 => Err(::std::io::Error::new(::std::io::ErrorKind::Other, \"x\")), _ => Err(::std::io::Error::from_raw_os_error(-(((k % 4000) as i32) + 1))) }",
+                rdig="r.map_err(|e| if cur_sel() % 4 == 2 { 0u32 } else { e.raw_os_error().unwrap_or(-1) as u32 }).dig()", attr="#[int_result]"),
     "int_unit_io": R("Result<(), ::std::io::Error>", "match sel % 3 { 0 => Ok(()), 1 => Err(::std::io::Error::from_raw_os_error(((k % 4000) as i32) + 2)), _ => Err(::std::io::Error::from_raw_os_error(-(((k % 4000) as i32) + 2))) }",
                      rdig="r.map_err(|e| e.raw_os_error().unwrap_or(0) as u32).dig()", attr="#[int_result]"),
     # Result shapes WITHOUT a method-level attribute, for traits that carry a trait-level #[int_result] / #[int_result(PResult)]
@@ -129,7 +129,7 @@ RETS = {
     "int_fmt": R("Result<u64, ::core::fmt::Error>", "if sel % 2 == 0 { Ok(k) } else { Err(::core::fmt::Error) }", rdig="r.map_err(|_| 1u32).dig()", attr="#[int_result]"),
 }
 SELS = {"int_tl": 2, "int_tl_alias": 2, "res_ie": 2, "int_zst_drop": 2, "opt_ptr": 3, "opt_q": 3, "res_q": 2, "int_q": 2, "slice_u8": 5, "slice_mut": 4, "str": 4, "opt_u64": 3, "opt_ref": 2, "res": 2, "res_unit": 2, "int_u64": 2, "int_unit": 2,
-        "int_drop": 2, "int_io": 3, "int_unit_io": 3, "int_alias": 2, "no_int": 2, "int_fmt": 2}
+        "int_drop": 2, "int_io": 4, "int_unit_io": 3, "int_alias": 2, "no_int": 2, "int_fmt": 2}
 
 
 def ret_ok(recv, ret):
@@ -627,6 +627,40 @@ pub mod xa {
     pub const ACTIONS: &[(bool, u64)] = &[(false, 1), (false, 1), (false, 1), (false, 1), (false, 1), (false, 1), (false, 1), (false, 1)];
     pub const DESC: &str = "plain associated type used as the element / payload of wrapped argument shapes (&[Item], &mut [Item], Option<Item>, Result<Item, u8>)";
 }
+/// hand-written member for the FFI lints only: wrapped shapes on methods that take another path through the generator - a
+/// C-side-only (`#[vtbl_only]`) method with wrapped argument shapes, `#[custom_impl]` methods with wrapped return shapes
+pub mod xv {
+    #![allow(unused_variables, unused_mut, dead_code, clippy::all)]
+    use cglue::*;
+    #[cglue_trait]
+    pub trait TVo {
+        fn vo_len(&self) -> usize;
+        #[vtbl_only]
+        fn vo_find(&self, needle: &[u8], label: &str, skip: Option<usize>, prev: Result<u32, u8>, out: &mut [u64]) -> usize {
+            self.vo_len() + needle.len() + label.len() + skip.unwrap_or(0) + prev.map(|v| v as usize).unwrap_or(1000) + out.len()
+        }
+        #[vtbl_only]
+        fn vo_get(&self, idx: usize) -> Option<u64> {
+            None
+        }
+        #[vtbl_only]
+        fn vo_name(&self) -> &str {
+            "vo"
+        }
+    }
+    #[cglue_trait]
+    pub trait TCi {
+        fn ci_count(&self) -> usize;
+        #[custom_impl({ idx: usize, }, Option<u64>, { let idx: usize = idx.into(); }, { }, { },)]
+        fn ci_slot<T: Into<usize>>(&self, idx: T) -> Option<u64>;
+        #[custom_impl({ idx: usize, }, Result<u32, u8>, { let idx: usize = idx.into(); }, { }, { },)]
+        fn ci_checked<T: Into<usize>>(&self, idx: T) -> Result<u32, u8>;
+        #[custom_impl({ idx: usize, }, &str, { let idx: usize = idx.into(); }, { }, { },)]
+        fn ci_label<T: Into<usize>>(&self, idx: T) -> &str;
+        #[custom_impl({ idx: usize, }, &[u8], { let idx: usize = idx.into(); }, { }, { },)]
+        fn ci_bytes<T: Into<usize>>(&self, idx: T) -> &[u8];
+    }
+}
 pub mod xs {
     #![allow(unused_variables, unused_mut, clippy::all)]
     use h_objbase::support::*;
@@ -696,8 +730,8 @@ pub mod xf {
         };
         Obs { ret: digest(&s), post: 0, ptr_ok: true }
     }
-    pub const ACTIONS: &[(bool, u64)] = &[(false, 1), (false, 1)];
-    pub const DESC: &str = "built-in ext trait core::fmt::Debug (plain formatting)";
+    pub const ACTIONS: &[(bool, u64)] = &[(false, 4), (false, 4)];
+    pub const DESC: &str = "built-in ext trait core::fmt::Debug (plain formatting; output in one piece and in pieces of 1..4096 bytes)";
 }
 pub mod xp {
     #![allow(unused_variables, unused_mut, clippy::all)]
@@ -715,8 +749,8 @@ pub mod xp {
         };
         Obs { ret: digest(&s), post: 0, ptr_ok: true }
     }
-    pub const ACTIONS: &[(bool, u64)] = &[(false, 1), (false, 1)];
-    pub const DESC: &str = "built-in ext trait core::fmt::Display (plain formatting)";
+    pub const ACTIONS: &[(bool, u64)] = &[(false, 4), (false, 4)];
+    pub const DESC: &str = "built-in ext trait core::fmt::Display (plain formatting; output in one piece and in pieces of 1..4096 bytes)";
 }
 """
 
@@ -898,6 +932,90 @@ pub mod xi {
     }
 }
 
+/// hand-written member: the CALLER side of integer results when the vtable belongs to a foreign implementor - every
+/// non-zero status must come back as Err (built-in Display object and a trait-level int_result trait), for a set of codes
+pub mod xj {
+    #![allow(unused_variables, unused_mut, clippy::all)]
+    use h_objbase::support::*;
+    use cglue::*;
+    use ::core::ffi::c_void;
+    use ::core::fmt::Write;
+    use ::std::sync::atomic::{AtomicI32, Ordering::SeqCst};
+    static CODE: AtomicI32 = AtomicI32::new(0);
+    #[repr(C)]
+    struct ForeignDisplayVtbl {
+        fmt: unsafe extern "C" fn(*const c_void, *mut c_void) -> i32,
+    }
+    unsafe extern "C" fn foreign_fmt(_: *const c_void, _: *mut c_void) -> i32 {
+        CODE.load(SeqCst)
+    }
+    static DISPLAY_VT: ForeignDisplayVtbl = ForeignDisplayVtbl { fmt: foreign_fmt };
+    #[cglue_trait]
+    #[int_result]
+    pub trait Cnt {
+        fn count(&self, id: u64) -> Result<u64, ()>;
+        fn touch(&self, id: u64) -> Result<(), ()>;
+    }
+    pub struct CntImp;
+    impl Cnt for CntImp {
+        fn count(&self, id: u64) -> Result<u64, ()> {
+            Ok(id)
+        }
+        fn touch(&self, id: u64) -> Result<(), ()> {
+            Ok(())
+        }
+    }
+    #[repr(C)]
+    struct ForeignCntVtbl {
+        count: unsafe extern "C" fn(*const c_void, u64, *mut u64) -> i32,
+        touch: unsafe extern "C" fn(*const c_void, u64) -> i32,
+    }
+    unsafe extern "C" fn foreign_count(_: *const c_void, id: u64, out: *mut u64) -> i32 {
+        let c = CODE.load(SeqCst);
+        if c == 0 {
+            *out = id + 100;
+        }
+        c
+    }
+    unsafe extern "C" fn foreign_touch(_: *const c_void, _id: u64) -> i32 {
+        CODE.load(SeqCst)
+    }
+    static CNT_VT: ForeignCntVtbl = ForeignCntVtbl { count: foreign_count, touch: foreign_touch };
+    pub const DESC: &str = "int_result decoding on the caller side against a foreign vtable: status 0 is Ok, every non-zero status (1, 2, -1, 0xffff, i32::MIN, i32::MAX) is Err; built-in Display and a trait-level int_result trait";
+    pub fn raw_check() -> Result<u64, (String, String)> {
+        let mut acc = 0u64;
+        for code in [0i32, 1, 2, -1, 0xffff, 22, -22, i32::MIN, i32::MAX] {
+            CODE.store(code, SeqCst);
+            {
+                let v = 42usize;
+                let mut obj = trait_obj!(v as Display);
+                // the object is #[repr(C)] { vtable pointer, container }: what a non-Rust implementor hands over
+                unsafe { *(&mut obj as *mut _ as *mut *const ForeignDisplayVtbl) = &DISPLAY_VT };
+                let mut out = String::new();
+                let r = write!(out, "{}", obj);
+                if r.is_ok() != (code == 0) {
+                    return Err(("intres:foreign_status_decoded".into(), format!("built-in Display object with a foreign vtable: fmt returned status {}, the caller side decoded {:?}", code, r)));
+                }
+            }
+            {
+                let mut obj = trait_obj!(CntImp as Cnt);
+                unsafe { *(&mut obj as *mut _ as *mut *const ForeignCntVtbl) = &CNT_VT };
+                let r = obj.count(5);
+                let want = if code == 0 { Ok(105) } else { Err(()) };
+                if r != want {
+                    return Err(("intres:foreign_status_decoded".into(), format!("int_result method with a payload against a foreign vtable: status {} decoded as {:?}, expected {:?}", code, r.map(|_| "Ok(..)"), want.map(|_| "Ok(105)"))));
+                }
+                let r = obj.touch(5);
+                if r.is_ok() != (code == 0) {
+                    return Err(("intres:foreign_status_decoded".into(), format!("int_result method without payload against a foreign vtable: status {} decoded as {:?}", code, r)));
+                }
+            }
+            acc = acc.wrapping_mul(31).wrapping_add(code as u32 as u64);
+        }
+        Ok(digest(&acc))
+    }
+}
+
 /// hand-written structure member: several temporary-storage slots of mixed receiver kind; the temporary storage keeps the
 /// methods' declaration order (a `&mut self` method declared before two `&self` methods)
 pub mod xo2 {
@@ -1027,6 +1145,7 @@ def main():
             reg.append("        (900002, xo::DESC, xo::raw_check as fn() -> Result<u64, (String, String)>),")
             reg.append("        (900003, xo2::DESC, xo2::raw_check as fn() -> Result<u64, (String, String)>),")
             reg.append("        (900004, xi::DESC, xi::raw_check as fn() -> Result<u64, (String, String)>),")
+            reg.append("        (900005, xj::DESC, xj::raw_check as fn() -> Result<u64, (String, String)>),")
             chunks.append(HAND_O)
         reg.append("    ]")
         reg.append("}")
